@@ -198,7 +198,7 @@ func runC07r(rc *RunCtx) {
 	if G.Draw(3) == 0 {
 		cur = 0
 	}
-	srv := startTCPServer(rc, w, tcpServerOpts{Keys: keys, Replay: cur, Timeout: 100 * time.Millisecond, UseSvc: G.Draw(2) == 0})
+	srv := startTCPServer(rc, w, tcpServerOpts{Keys: keys, Replay: cur, Timeout: 100 * time.Millisecond, UseSvc: G.Draw(2) == 0, Debug: rc.F.Draw(3) == 1})
 	tgtIP := net.IPv4(93, 184, 216, 34).To4()
 	startTarget(w, tgtIP, 7000, func(tc *targetConn) {
 		readAll(tc.C)
